@@ -529,6 +529,8 @@ class SymArray(np.ndarray):
                 dt = np.dtype(dt)
             except TypeError:
                 dt = None
+            if dt is not None and dt.kind not in 'fcO' and not _has_sym(self):
+                return np.asarray(self).astype(dt, *a, **k).view(np.ndarray)
             if dt is not None and dt.kind in 'fc':
                 return self.copy()
             if dt is not None and dt.kind == 'O':
@@ -867,6 +869,22 @@ class RandomProxy:
             return one()
         n = int(np.prod(size))
         return symarray([one() for _ in range(n)]).reshape(size)
+
+    def exponential(self, scale=1.0, size=None):
+        def one():
+            v = SR(fresh_real('expo'))
+            assume(v.e >= 0)
+            return v
+        if size is None:
+            return one()
+        return symarray([one() for _ in range(int(np.prod(size)))]).reshape(size)
+
+    def normal(self, loc=0.0, scale=1.0, size=None):
+        def one():
+            return SR(fresh_real('norm'))
+        if size is None:
+            return one()
+        return symarray([one() for _ in range(int(np.prod(size)))]).reshape(size)
 
     def permutation(self, n):
         n = int(n)
